@@ -120,7 +120,7 @@ def intOffsetOk (digits : List Nat) (neg : Bool) : Bool :=
 structure ECtx where
   toks : Array TokInfo
   combs : List PosComb
-  cur : Nat
+  cur : Option Nat            -- index of `currentToken` (the token lexed last); none before the first `Lex`
   envs : List (List V)        -- envs[k] = the right-hand-side values after the first k stores (envs[0] = as reduced)
   objs : List V
 
@@ -230,7 +230,9 @@ mutual
 def evalTm (c : ECtx) : Tm → V
   | .argAt k i => getArg (envAt c.envs k) i
   | .arg i => getArg (lastEnv c.envs) i
-  | .cur => .tok c.cur
+  | .cur => match c.cur with
+    | some i => .tok i
+    | none => .nil
   | .nil => .nil
   | .fld t k => match evalTm c t with
     | .node _ _ fs => (fs[k]?).getD .bad
@@ -340,7 +342,7 @@ def evalObjs (c : ECtx) (uid0 : Nat) : List ObjLit → List V → List V
     evalObjs c uid0 os (acc ++ [v])
 
 /-- the stores of a path, one after the other: every value is computed from the state the stores before it left -/
-def runMuts (toks : Array TokInfo) (combs : List PosComb) (cur uid0 : Nat) (objs : List ObjLit) : List TMut → List (List V) → List (List V)
+def runMuts (toks : Array TokInfo) (combs : List PosComb) (cur : Option Nat) (uid0 : Nat) (objs : List ObjLit) : List TMut → List (List V) → List (List V)
   | [], envs => envs
   | m :: ms, envs =>
     let c0 : ECtx := { toks := toks, combs := combs, cur := cur, envs := envs, objs := [] }
@@ -351,19 +353,19 @@ def runMuts (toks : Array TokInfo) (combs : List PosComb) (cur uid0 : Nat) (objs
     runMuts toks combs cur uid0 objs ms (envs ++ [env'])
 
 /-- evaluation context of a path after all its stores -/
-def pathCtx (toks : Array TokInfo) (combs : List PosComb) (p : TPath) (args : List V) (cur uid0 : Nat) : ECtx :=
+def pathCtx (toks : Array TokInfo) (combs : List PosComb) (p : TPath) (args : List V) (cur : Option Nat) (uid0 : Nat) : ECtx :=
   let envs := runMuts toks combs cur uid0 p.objs p.muts [args]
   let c1 : ECtx := { toks := toks, combs := combs, cur := cur, envs := envs, objs := [] }
   { c1 with objs := evalObjs c1 uid0 p.objs [] }
 
 /-- the meaning of one path on the right-hand-side values `args` -/
-def runPath (toks : Array TokInfo) (combs : List PosComb) (p : TPath) (args : List V) (cur uid0 : Nat) : PathOut :=
+def runPath (toks : Array TokInfo) (combs : List PosComb) (p : TPath) (args : List V) (cur : Option Nat) (uid0 : Nat) : PathOut :=
   let c := pathCtx toks combs p args cur uid0
   { ret := p.ret.map (evalTm c), root := p.root.map (evalTm c), uid := uid0 + p.objs.length }
 
 /-- a path is the trace of one run through the action: it applies when all its branch conditions, read at
     the points where the action tests them, hold -/
-def pathApplies (toks : Array TokInfo) (combs : List PosComb) (p : TPath) (args : List V) (cur : Nat) : Bool :=
+def pathApplies (toks : Array TokInfo) (combs : List PosComb) (p : TPath) (args : List V) (cur : Option Nat) : Bool :=
   p.conds.all (evalCond (pathCtx toks combs p args cur 0))
 
 /-- state threaded through the reductions -/
@@ -382,7 +384,7 @@ def mkPathTable (ps : List TPath) : PathTable :=
 
 def reduceTree (toks : Array TokInfo) (combs : List PosComb) (tbl : PathTable) (st : TreeSt) (prod : Int) (args : List V)
     (dflt : V) (pos : Nat) : Except String (V × TreeSt) :=
-  let cur := pos - 1
+  let cur : Option Nat := if pos == 0 then none else some (pos - 1)
   match (tbl[prod.toNat]?).getD [] with
   | [] => .ok (dflt, st)      -- a production without action: `$$ = $1`
   | ps =>
